@@ -1,5 +1,6 @@
 import Oryx.Base.Text
 import Oryx.Model.Json
+import Oryx.Model.JsonRead
 namespace Oracle.Json
 open Oryx Oryx.Json
 
@@ -8,6 +9,7 @@ open Oryx Oryx.Json
   json.chunks <b1,b2,…>         input delivered as these reads     → same
   json.split <bytes> <0|1>      one call of the split function     → `more` | `fail` | `token <advance> <hex>`
   json.first <bytes>            firstMatch over the start markers  → `<pos> <index>` | `none`
+  json.reads <n1,n2,…> <bytes>  Read calls with these slice lengths → `<hex|-|eof|err>,…` (stops at the first eof / err)
 -/
 
 def statusStr : Status → String
@@ -32,6 +34,15 @@ def handle (op : String) (args : List String) : Option String :=
     pure (match firstMatch b jsonPlus.starts with
       | none => "none"
       | some (p, i) => s!"{p} {i}")
+  | "json.reads", [ns, h] => do
+    let b ← parseBytes h
+    let sizes ← if ns == "_" then some [] else (ns.splitOn ",").mapM (·.toNat?)
+    let r := (Rd.ofInput jsonPlus b).reads sizes
+    let one : ROut → String
+      | .data d => if d.isEmpty then "-" else toHex d
+      | .eof => "eof"
+      | .err => "err"
+    pure (if r.2.isEmpty then "_" else ",".intercalate (r.2.map one))
   | _, _ => none
 
 end Oracle.Json
